@@ -145,9 +145,14 @@ def check(case, ctx):
     ctx.event(f"meta={meta}")
     pinfo = fm.Info(time=hs.T0, grid=(None if meta == "producer-open" else sg), units="m",
                     mask=(to_shape(smask, sshape, sorder) if smask is not None else fm.Mask.FLEX))
+    # who states the target mask: the consumer's info | the adapter (out_mask=..., consumer flexible) | both (equal)
+    tmask_by = case.get("tmask_by", "consumer") if tmask is not None else "consumer"
     cinfo = fm.Info(time=hs.T0, grid=(None if meta == "consumer-open" else tg), units=(None if meta == "consumer-open" else "m"),
-                    mask=(to_shape(tmask, tshape, torder) if tmask is not None else fm.Mask.FLEX))
+                    mask=(to_shape(tmask, tshape, torder) if tmask is not None and tmask_by != "adapter" else fm.Mask.FLEX))
     kw = {}
+    if tmask_by in ("adapter", "both"):
+        kw["out_mask"] = to_shape(tmask, tshape, torder)
+        ctx.event(f"target-mask-stated-by={tmask_by}")
     if meta == "consumer-open":
         kw["out_grid"] = tg
     if meta == "producer-open":
@@ -303,6 +308,7 @@ def nearest_case(draw):
         "method": "nearest",
         "fill": False,
         "meta": draw(st.sampled_from(["both", "both", "consumer-open", "producer-open"])),
+        "tmask_by": draw(st.sampled_from(["consumer", "consumer", "adapter", "both"])),
         "twin": draw(st.sampled_from([None, None, "first", "second"])),
     }
 
@@ -340,6 +346,7 @@ def linear_case(draw):
         "method": "linear",
         "fill": draw(st.booleans()),
         "meta": draw(st.sampled_from(["both", "both", "consumer-open", "producer-open"])),
+        "tmask_by": draw(st.sampled_from(["consumer", "consumer", "adapter", "both"])),
         "twin": draw(st.sampled_from([None, None, "first", "second"])),
     }
 
